@@ -443,6 +443,9 @@ func init() {
 								return true
 							})
 							okStart = any && derives
+						} else if uses(call.Args[0]) {
+							// an expression computed from the checkpoint directly (a helper call, an index)
+							okStart = true
 						}
 					}
 				}
